@@ -20,7 +20,7 @@ import (
 
 func newModel(thorough bool) *chainprop.Model {
 	m := &chainprop.Model{Menu: world.Menu()}
-	m.Scn, m.Opts = chainprop.StdScenarios()
+	m.Std()
 	m.StdDrive()
 	m.Singles(false)
 	m.Pairs()
